@@ -61,6 +61,10 @@ def dur_value(spec, w):
         return (k + 1 / 3) * float(w)
     if form == "half":
         return (k + 0.5) * float(w)
+    if form == "hair_up":   # 5e-7 of a window beyond k windows: not within 1e-9 -> k+1 for min, k for max
+        return (k + 5e-7) * float(w)
+    if form == "hair_down":  # 5e-7 of a window short of k windows -> k for min, k-1 for max
+        return (k - 5e-7) * float(w)
     raise HarnessError(form)
 
 
@@ -224,6 +228,11 @@ def explicit_cases():
         {"grid": [100.0, 99.999999995, 0.0, 0.001, 1000]},
         {"grid": [100.0, 100.0, 99.999, 0.001, 1000]},
         {"grid": [100.0, 100.0, 99.998999995, 0.001, 1000]},
+        # 5e-7 of a window beyond 1000 windows is not "within 1e-9 of an integer"
+        {"grid": [(1000 + 5e-7) * 0.01, 10.0, 0.0, 0.01, 1000]},
+        {"grid": [10.0, (1000 - 5e-7) * 0.01, 0.0, 0.01, 1000]},
+        {"grid": [5.0, 10.0, (1000 - 5e-7) * 0.01, 0.01, 1000]},
+        {"grid": [5.0, 10.0, (1000 + 5e-7) * 0.01, 0.01, 1000]},
     ]
 
 
@@ -242,6 +251,12 @@ def strategy(draw):
     fsil = draw(st.sampled_from(["mul", "mul", "third", "half"]))
     if big:
         sr, w = 1000, draw(st.sampled_from(["0.005", "0.01"]))
+        if kmin < kmax and draw(st.booleans()):
+            fmin = "hair_down"      # still kmin windows
+        if ksil + 1 < kmax and draw(st.booleans()):
+            fsil = "hair_up"        # still ksil windows
+        if draw(st.booleans()):
+            fmax = "hair_up"        # still kmax windows
     order = "".join(draw(st.permutations("abcdefgh")))[: draw(st.integers(2, 8))]
     B = int(Fraction(w) * sr)
     wf = None
@@ -251,7 +266,7 @@ def strategy(draw):
         wf = [B, draw(st.sampled_from([0.25, 0.5, 0.75]))]
     return {
         "sr": sr, "w": w, "wf": wf,
-        "min": [kmin if fmin == "mul" else kmin - 1, fmin],
+        "min": [kmin if fmin in ("mul", "hair_down") else kmin - 1, fmin],
         "max": [kmax, fmax], "sil": [ksil, fsil],
         "drop": draw(st.booleans()), "strict": draw(st.booleans()),
         "via_reader": draw(st.booleans()), "overlap": draw(st.integers(0, 3)) == 0, "conflict_aw": draw(st.sampled_from([None, None, "long", "short"])),
